@@ -10,10 +10,10 @@ DSNS = '{"off", "never", "succfail", "all", "hdrs", "neverfirst", "neverlast", "
 STAGES = {
     'C05': {
         'quick': [('local-len2-all-setters', 'Rfc5321Line', dict(ALPHABET=ALPHA, MAXLOCAL='2', FORMS='{"plain", "named"}', HELOS=HELOS, DSNS=DSNS,
-                                                                SETTERS='{"From", "EnvelopeFrom", "To", "AddCc", "Bcc", "ToIgnoreInvalid", "ToFromString"}')),
+                                                                SETTERS='{"From", "EnvelopeFrom", "To", "AddCc", "Bcc", "ToIgnoreInvalid", "ToFromString", "ToThenAddTo"}')),
                   ('local-len3-from-to', 'Rfc5321Line', dict(ALPHABET=ALPHA, MAXLOCAL='3', FORMS='{"plain"}', HELOS='{}', DSNS='{}', SETTERS='{"From", "To"}'))],
         'thorough': [('local-len3-all-setters', 'Rfc5321Line', dict(ALPHABET=ALPHA, MAXLOCAL='3', FORMS='{"plain", "named"}', HELOS=HELOS, DSNS=DSNS,
-                                                                   SETTERS='{"From", "EnvelopeFrom", "To", "AddCc", "Bcc", "ToIgnoreInvalid", "ToFromString"}')),
+                                                                   SETTERS='{"From", "EnvelopeFrom", "To", "AddCc", "Bcc", "ToIgnoreInvalid", "ToFromString", "ToThenAddTo"}')),
                      ('local-len4-from-to', 'Rfc5321Line', dict(ALPHABET=ALPHA, MAXLOCAL='4', FORMS='{"plain"}', HELOS='{}', DSNS='{}', SETTERS='{"From", "To"}'))],
     },
 }
